@@ -87,6 +87,21 @@ def string_scripts(maxlen):
     return out
 
 
+def typefn_scripts():
+    """type functions (`->len`, `->type`) taken as values and called with another `this`, or none"""
+    out = []
+    recv = ['"abc"', '"é"[0]', "7", "true", "[1]", '{"k": 1}', "print", "fn() { return 1; }"]
+    hosts = ['o := {{"f": {f}}}\nprint(o.f())', 'o := {{"f": {f}, "g": 1}}\nprint(o["f"]())', 'xs := [{f}]\nprint(xs[0]())', 'g := {f}\nprint(g())',
+             'fn ap(h) {{\n    return h()\n}}\nprint(ap({f}))', 'o := {{"n": 5, "f": {f}}}\nprint(o.f(1))', 'print({f}(1, 2))',
+             'o := {{"f": {f}}}\np := {{"f": o.f}}\nprint(p.f())', 'o := {{"len": {f}, "type": {f}}}\nprint(o->type())\nprint(o.len())']
+    for r in recv:
+        for fn in ("len", "type"):
+            f = f"({r})->{fn}"
+            for h in hosts:
+                out.append(h.format(f=f) + "\n")
+    return out
+
+
 def run(ctx, model_ok):
     thorough = ctx.tier == "thorough"
     sets = []
@@ -94,6 +109,7 @@ def run(ctx, model_ok):
     sets.append(("ints", int_scripts(streams.INT_GRID_FULL if thorough else streams.INT_GRID_QUICK)))
     sets.append(("strings", string_scripts(3 if thorough else 2)))
     sets.append(("pieces", piece_scripts()))
+    sets.append(("typefns", typefn_scripts()))
     sets.append(("progs", progs.generate(ctx.rng, 40000 if thorough else 2500)))
     cyc = ["xs := [1]\nxs[0] = xs\nprint(xs)\n", "xs := [1]\nxs[0] = xs\nprint(xs == [xs])\n",
            "o := {\"k\": 1}\no.k = o\nprint(o)\n", "a := [1]\nb := [a]\na[0] = b\nprint(a)\n"]
